@@ -1064,8 +1064,10 @@ func (t *tokenizer) readTimestamp() (string, error) {
 	if c, err = t.read(); err != nil {
 		return "", err
 	}
-	if isDigit(c) {
-		if c, err = t.readDigits(c, &w); err != nil {
+	// Unlike the digits of a number, these may not be grouped with underscores.
+	for isDigit(c) {
+		w.WriteByte(byte(c))
+		if c, err = t.read(); err != nil {
 			return "", err
 		}
 	}
